@@ -175,6 +175,7 @@ structure WaitSt where
   isCall : Option (Nat × Option Chan) := none   -- callEvent: template and target, fired at first `next`
   chanArg : Option Chan := none                 -- waitEvent(name, channel)
   started : Bool := false
+  timedOut : Bool := false                      -- `state.timed_out`: `_on_tick` has fired the TimeoutError task
   deriving Repr
 
 structure TimerSt where
